@@ -44,7 +44,65 @@ def replay_chunks(ctx, exe, env, cases, chunks, tag):
     return outs, crashes
 
 
+def finish_replay(ctx):
+    """--replay: report what was reproduced; the evidence file is not touched"""
+    import shutil
+    for (sig, what, path) in ctx.mismatches:
+        print("VIOLATION property=%s replay=%s sig=%s :: %s" % (ctx.pid, ctx.replay, sig, " | ".join(what.splitlines())[:900]))
+    if not ctx.mismatches:
+        print("REPLAY-OK property=%s replay=%s: the implementation now conforms on this artefact" % (ctx.pid, ctx.replay))
+    shutil.rmtree(ctx.tmp, ignore_errors=True)
+    return 1 if ctx.mismatches else 0
+
+
+def compare_sig(ctx, t, case, f, c):
+    """one signature: decisions of the fresh and of the cached pass against the spec's table"""
+    if f is None or c is None:
+        return 0
+    for how, o, want in (("fresh", f, "compiled"), ("cached", c, "cached")):
+        if "err" in o:
+            ctx.mismatch("build:%s" % how, "kernel %s could not be built (%s): %s" % (t["s"], how, o["err"]), [dict(case, spec=t)])
+        elif o["built"] != want:
+            raise Broken("pass %s of signature %s was %s (expected %s): the fresh/cached set-up is wrong" % (how, t["s"], o["built"], want))
+    if "err" in f or "err" in c:
+        return 0
+    n, decisions = len(t["s"]), 0
+    for j, row in enumerate(t["rows"]):
+        rf, rc_ = f["res"][j], c["res"][j]
+        shape = "%d-params:%s" % (n, "count" if len(row["args"]) != n else "kinds")
+        art = [dict(case, lists=[row["args"]], spec={"s": t["s"], "rows": [row]})]
+        for how, got in (("fresh", rf), ("cached", rc_)):
+            decisions += 1
+            if row["exp"] != "any" and got.split(":")[0] != row["exp"]:
+                ctx.mismatch("decision:%s:%s:wrongly-%s" % (how, shape, "accepted" if got == "runs" else "refused"),
+                             "kernel(%s) launched %s with (%s): %s, spec %s" % (", ".join(t["s"]), how, ", ".join(row["args"]), got, row["exp"]), art)
+        if rf.split(":")[0] != rc_.split(":")[0]:
+            ctx.mismatch("fresh-vs-cached:%s" % shape,
+                         "kernel(%s) with (%s): fresh %s, cached %s" % (", ".join(t["s"]), ", ".join(row["args"]), rf, rc_), art)
+    return decisions
+
+
+def replay(ctx):
+    recs = [json.loads(l) for l in open(ctx.replay) if l.strip()]
+    if not all("spec" in r for r in recs):
+        raise Broken("the artefact carries no predictions (written by an older version of the check)")
+    exe, lib = ctx.build_harness("kernelargs_replay", ["kernelargs_replay.cpp"], variant="fast")
+    env = ctx.occa_env(lib)
+    env["OCCA_CXXFLAGS"] = "-O0"
+    cases = [{k: v for k, v in r.items() if k != "spec"} for r in recs]
+    passes = {}
+    for how in ("fresh", "cached"):
+        passes[how], crashes = replay_chunks(ctx, exe, env, cases, 1, how)
+        for c in crashes:
+            ctx.mismatch("crash:%s:%s" % (how, c["crash"]), "replayer crashed (%s): %s" % (how, c.get("log", "")[-1200:]))
+    for i, r in enumerate(recs):
+        compare_sig(ctx, r["spec"], cases[i], passes["fresh"].get(i), passes["cached"].get(i))
+    return finish_replay(ctx)
+
+
 def run(ctx):
+    if ctx.replay:
+        return replay(ctx)
     t0 = time.time()
     # 1. model: intended decision = transcribed decision, fresh = cached, oracle sanity; one table per signature
     cfg = "mc/KernelArgs_full.cfg" if ctx.tier == "thorough" else "mc/KernelArgs_quick.cfg"
@@ -76,30 +134,7 @@ def run(ctx):
     t2 = time.time()
     decisions = 0
     for i, t in enumerate(tables):
-        f, c = passes["fresh"].get(i), passes["cached"].get(i)
-        if f is None or c is None:
-            continue
-        for how, o, want in (("fresh", f, "compiled"), ("cached", c, "cached")):
-            if "err" in o:
-                ctx.mismatch("build:%s" % how, "kernel %s could not be built (%s): %s" % (t["s"], how, o["err"]), [cases[i]])
-            elif o["built"] != want:
-                raise Broken("pass %s of signature %s was %s (expected %s): the fresh/cached set-up is wrong" % (how, t["s"], o["built"], want))
-        if "err" in f or "err" in c:
-            continue
-        n = len(t["s"])
-        for j, row in enumerate(t["rows"]):
-            rf, rc_ = f["res"][j], c["res"][j]
-            shape = "%d-params:%s" % (n, "count" if len(row["args"]) != n else "kinds")
-            for how, got in (("fresh", rf), ("cached", rc_)):
-                decisions += 1
-                if row["exp"] != "any" and got.split(":")[0] != row["exp"]:
-                    ctx.mismatch("decision:%s:%s:wrongly-%s" % (how, shape, "accepted" if got == "runs" else "refused"),
-                                 "kernel(%s) launched %s with (%s): %s, spec %s" % (", ".join(t["s"]), how, ", ".join(row["args"]), got, row["exp"]),
-                                 [dict(cases[i], lists=[row["args"]])])
-            if rf.split(":")[0] != rc_.split(":")[0]:
-                ctx.mismatch("fresh-vs-cached:%s" % shape,
-                             "kernel(%s) with (%s): fresh %s, cached %s" % (", ".join(t["s"]), ", ".join(row["args"]), rf, rc_),
-                             [dict(cases[i], lists=[row["args"]])])
+        decisions += compare_sig(ctx, t, cases[i], passes["fresh"].get(i), passes["cached"].get(i))
     ctx.notes.append("phase wall seconds: TLC %.0f, build+replay (2 passes) %.0f, compare %.0f" % (t1 - t0, t2 - t1, time.time() - t2))
     ctx.traces_validated = len(passes["fresh"]) + len(passes["cached"])
     ctx.samples = [{"sig": tables[0]["s"], "rows": tables[0]["rows"][:3]},
